@@ -134,13 +134,37 @@ func c16ConcJob(ids *c16IDs, obs []c16Obs, conc int, seq []int) c16Job {
 		dials := append([]c16Dial{}, e.dials...)
 		e.mu.Unlock()
 		e.close()
-		for _, r := range running {
+		// nobody completes the dial data for a foreign address here, so any dial at all is a violation; a dial
+		// is audited against the request that named its address (every request has its own ports)
+		owner := make([][]c16Dial, len(running))
+		var orphans []c16Dial
+		for _, d := range dials {
+			found := false
+			for i, r := range running {
+				for _, a := range r.o.req.Addrs {
+					if a == d.Addr.String() {
+						owner[i] = append(owner[i], d)
+						found = true
+					}
+				}
+			}
+			if !found {
+				orphans = append(orphans, d)
+			}
+		}
+		for i, r := range running {
 			jr.execs++
 			if c16Rejected(r.o) {
 				rejected++
 			}
-			// nobody completed the dial data for a foreign address: any dial at all is a violation
-			jr.findings = append(jr.findings, c16Audit(ids, obs, r.o, dials, true)...)
+			ds := owner[i]
+			if i == 0 {
+				ds = append(ds, orphans...)
+			}
+			jr.findings = append(jr.findings, c16Audit(ids, obs, r.o, ds, true)...)
+		}
+		if len(running) == 0 && len(dials) > 0 {
+			jr.findings = append(jr.findings, c16Finding{"server-dial-address-not-in-request", fmt.Sprintf("%d dials without any request", len(dials))})
 		}
 		cl := fmt.Sprintf("concurrent: limit=%d max-in-service=%d some-rejected=%v", conc, maxServed, rejected > 0)
 		jr.classes = []string{cl}
